@@ -57,7 +57,7 @@
               PROVED there: calculate_path / calculate_length never panic,
               for every libm, and hence no decode ever panics; the Bézier
               subdivision fuel suffices in IEEE arithmetic for n control
-              points within +-2^E when n * 2^E <= 2^21
+              points within +-2^E when n * 2^E <= 2^22
               ([C01_T01g_ieee_bounded]).  OPEN: the same for the remaining
               segments a file can contain (more control points, far from
               the origin) (T01g, partial by design; proved for reals and
@@ -664,19 +664,19 @@ Proof. exact (conj BezierIEEEFinite.seg_fin_dump BezierIEEEFinite.seg_fin_finite
      +-131072) ->
      exists r, Curve.approximate_bezier_L1 Curve.bezier_fuel path points tt = Done r.
    PROVED ([C01_T01g_ieee_bounded], below): the statement for every segment of
-   n control points with finite coordinates |x| <= 2^E and n * 2^E <= 2^21
-   -- e.g. <= 4096 control points within +-512, <= 512 within +-4096, <= 16
-   within +-131072, <= 8 anywhere in the parser's range (+-262144 relative to
-   the slider).  The binary32 rounding of `(a + b) / 2.0` (at most u =
-   2^(E-24) + 2^-150 per midpoint) and of the flatness test `(prev - curr * 2.0
+   n control points with finite coordinates |x| <= 2^E and n * 2^E <= 2^22
+   -- e.g. <= 8192 control points within +-512, <= 1024 within +-4096, <= 32
+   within +-131072, <= 16 anywhere in the parser's range (+-262144 relative
+   to the slider).  The binary32 rounding of `(a + b) / 2.0` (at most u =
+   2^(E-25) + 2^-150 per midpoint) and of the flatness test `(prev - curr * 2.0
    + next).length_squared() > 0.25` (false whenever both real second
-   differences are <= 9/32 and E <= 19) cannot stall the 1/4 contraction
+   differences are <= 7/32 and E <= 20) cannot stall the 1/4 contraction
    there: the second differences along a row of the computed triangle grow
    by at most 4u per level, those of a child are a quarter of a row's plus at
    most 3u, so D' <= D/4 + n u, fixed point 4nu/3 <= 3/16.
    ([C01_T01g_ieee_bounded_via_exact_child] is the first, weaker form, (n - 1)
    * 2^E <= 2^19, obtained by comparing with the exact child.)
-   REMAINS OPEN: segments with n * 2^E > 2^21 inside the parser's range (many
+   REMAINS OPEN: segments with n * 2^E > 2^22 inside the parser's range (many
    control points far from the origin).  The worst-case bound n u is linear
    in n and exceeds the tolerance there; the true growth is logarithmic in n
    (the 4u increments have alternating signs that the next averaging step
@@ -735,7 +735,7 @@ Proof. intros E p. split; intros H; exact H. Qed.
 
 Theorem C01_T01g_ieee_bounded :
   forall (E : Z) path points,
-  0 <= E -> Z.of_nat (length points) * 2 ^ E <= 2 ^ 21 ->
+  0 <= E -> Z.of_nat (length points) * 2 ^ E <= 2 ^ 22 ->
   points <> [] -> Forall (BezierIEEE.point_ok E) points ->
   exists path', Curve.approximate_bezier_L1 Curve.bezier_fuel path points tt = Done (path', tt).
 Proof. exact BezierIEEETight.T01g_ieee_bounded_tight. Qed.
@@ -744,7 +744,7 @@ Print Assumptions C01_T01g_ieee_bounded.
 (* ... with the depth: the subdivision tree below such a segment is flat at depth 19 *)
 Theorem C01_T01g_ieee_bounded_depth :
   forall (E : Z) points,
-  0 <= E -> Z.of_nat (length points) * 2 ^ E <= 2 ^ 21 ->
+  0 <= E -> Z.of_nat (length points) * 2 ^ E <= 2 ^ 22 ->
   points <> [] -> Forall (BezierIEEE.point_ok E) points ->
   BezierTermination.within32 19 points.
 Proof. exact BezierIEEETight.within32_bounded_tight. Qed.
@@ -789,13 +789,13 @@ Print Assumptions C01_T01g_ieee_flat_test.
 
 (* not vacuous: what the line
    `0,0,0,2,0,B|131072:-131072|-131072:131072|131072:131072,1,100` decodes to --
-   four control points within +-2^17 (4 * 2^17 <= 2^21), far from flat *)
+   four control points within +-2^17 (4 * 2^17 <= 2^22), far from flat *)
 Example C01_T01g_ieee_bounded_example :
   map Curve.dump_pos BezierIEEE.ex_seg
     = [[0; 0]; [1207959552; 3355443200]; [3355443200; 1207959552]; [1207959552; 1207959552]] /\
   Curve.flat_enough BezierIEEE.ex_seg = false /\
   Forall (BezierIEEE.point_ok 17) BezierIEEE.ex_seg /\
-  Z.of_nat (length BezierIEEE.ex_seg) * 2 ^ 17 <= 2 ^ 21 /\
+  Z.of_nat (length BezierIEEE.ex_seg) * 2 ^ 17 <= 2 ^ 22 /\
   (forall path, exists path',
      Curve.approximate_bezier_L1 Curve.bezier_fuel path BezierIEEE.ex_seg tt = Done (path', tt)).
 Proof.
@@ -805,7 +805,7 @@ Proof.
 Qed.
 
 (* hence Curve::new / BorrowedCurve::new (pure level) return a value for every
-   slider of n control points within +-2^E with n * 2^E <= 2^21, any segment
+   slider of n control points within +-2^E with n * 2^E <= 2^22, any segment
    kinds, mode and requested length, for every libm whose atan2 has its values
    in [-PI, PI]: calculate_path hands contiguous slices of the control points
    to the Bezier routine, and a slice of covered points is covered *)
@@ -814,7 +814,7 @@ From RM Require Proofs.BezierIEEECurve.
 Theorem C01_T01g_curve_bounded :
   forall lm mode pts e (E : Z),
   ThetaLoop.atan2_in_range lm -> 0 <= E ->
-  Z.of_nat (length pts) * 2 ^ E <= 2 ^ 21 ->
+  Z.of_nat (length pts) * 2 ^ E <= 2 ^ 22 ->
   Forall (fun p => BezierIEEE.point_ok E (Curve.pc_pos p)) pts ->
   exists c, Curve.curve_L1 lm Curve.bezier_fuel mode pts e = Done c.
 Proof. exact BezierIEEECurve.curve_L1_bounded. Qed.
